@@ -1158,6 +1158,17 @@ Section Proven.
     intros Hwf Hn. apply local_tree_wf; [exact Hwf|].
     eapply nodes_ok'_impl; [|exact Hn]. exact leaf_local_ok_spec.
   Qed.
+
+  (* C02 for the executed model: it is linear on the output box (LinopLinear.linear_every_tree transported) *)
+  Theorem den_retab_linear A : wf A = true -> nodes_ok' leaf_local_ok A ->
+    (forall L, library_backed L = true -> linear R (orc L)) ->
+    forall (a : R) x y o, inbox (oshape_of A) o ->
+      den (R:=R) arr scal orc retab A (fun i => add (mul a (x i)) (y i)) o =
+      add (mul a (den (R:=R) arr scal orc retab A x o)) (den (R:=R) arr scal orc retab A y o).
+  Proof.
+    intros Hwf Hn Ho a x y o Hb. rewrite !(den_retab_eq_proven A Hwf Hn) by exact Hb.
+    apply (linear_every_tree R arr scal orc Ho A).
+  Qed.
 End Proven.
 
 (* ---- the hypotheses are satisfiable: a tree through every combinator, all leaves in proved classes ---- *)
